@@ -60,8 +60,10 @@ contract("operon_ai/organelles/nucleus.py::Nucleus.transcribe_with_tools", "C03"
 
 # ---------------------------------------------------------------- construction: the capability set the gate consults IS the one the caller configured
 contract(T + ".__init__", "C03", is_init=True, params={"tools": "none", "allowed_capabilities": "opt:set:enum:Capability"}, raises=[],
+         ghost_params={"cap0": "enum:Capability"},
+         # the same set of capabilities (for an arbitrary capability cap0) -- not necessarily the same object: a correct defensive copy is fine
          ensures={"allowed-set-is-stored-as-given": "(allowed_capabilities is None) == (self.allowed_capabilities is None) and "
-                                                    "implies(allowed_capabilities is not None, self.allowed_capabilities is allowed_capabilities)",
+                                                    "implies(allowed_capabilities is not None, (cap0 in self.allowed_capabilities) == (cap0 in allowed_capabilities))",
                   "starts-without-tools": "len(self.tools) == 0"})
 
 
